@@ -150,14 +150,32 @@ def rule_a(ctx):
             ctx.check(okc, "C18-A", "Display::None←display:none", st["span"], sfp.id, "arm %s" % [names.get(a) for a in arm])
         else:
             # after the loop: needs both flags
+            # governed by bool flags (true edges); each flag is set true only inside arms of the declaration match:
+            # one flag in the (Max)Height arms, another in the Overflow(Y) arms
+            dnames = {v["discr"]: v["name"] for v in F.adt("css::parser::Decl")["variants"]}
+            flags = set()
+            for (a, s) in sfp.cdeps_transitive(bb):
+                truth, src = edge_is_true(sfp, a, s)
+                if truth is True and src and src[0] == "place" and is_bare(src[1]) and sfp.local_ty(src[1]["l"]) == "bool":
+                    flags.add(src[1]["l"])
             govs = set()
-            for flag in ("height_zero", "overflow_hidden"):
-                cut = edges_where(sfp, lambda truth, src, a, s: truth is True and src and src[0] == "place" and
-                                  is_bare(src[1]) and sfp.local_name(src[1]["l"]) == flag)
-                if unreachable_without_edges(sfp, bb, cut):
-                    govs.add(flag)
+            for fl in sorted(flags):
+                cut = edges_where(sfp, lambda truth, src, a, s, fl=fl: truth is True and src and src[0] == "place" and
+                                  is_bare(src[1]) and src[1]["l"] == fl)
+                if not unreachable_without_edges(sfp, bb, cut):
+                    continue  # not a necessary condition (e.g. one side of an `||`)
+                arms = set()
+                for r in sfp.defs()[fl]:
+                    if r[0] == "stmt" and (op_const((r[3].get("rv") or {}).get("use") or {}) or {}).get("v") == "true":
+                        arms |= {dnames.get(v) for v, tb in sfp.term(pdisp)["targets"] if r[1] in sfp.reach_from(tb, avoid=[pdisp])}
+                if arms and arms <= {"Height", "MaxHeight"}:
+                    govs.add("height_zero")
+                elif arms and arms <= {"Overflow", "OverflowY"}:
+                    govs.add("overflow_hidden")
+                else:
+                    govs.add("?%s" % sorted(map(str, arms)))
             kinds.add("idiom")
-            ctx.check({"height_zero", "overflow_hidden"} <= govs, "C18-A", "Display::None←height0+overflow-hidden", st["span"], sfp.id,
+            ctx.check({"height_zero", "overflow_hidden"} == govs, "C18-A", "Display::None←height0+overflow-hidden", st["span"], sfp.id,
                       "governed by %s" % sorted(map(str, govs)))
     ctx.check(kinds == {"decl", "idiom"}, "C18-A", "Display::None:both-sources-and-only-those", sfp.span, sfp.id, str(sorted(kinds)))
 
@@ -189,8 +207,13 @@ def rule_b(ctx):
                 return False
             if src_field(src) and src_field(src)[1] == "use_doc_css":
                 return True
-            if src[0] == "place" and is_bare(src[1]) and (b.local_name(src[1]["l"]) or "").strip("_") == "use_doc_css":
-                return True
+            if src[0] == "place" and is_bare(src[1]) and b.local_ty(src[1]["l"]) == "bool":
+                # the use_doc_css *parameter*: a bool argument which every caller feeds from HtmlContext.use_doc_css
+                ds = b.defs()[src[1]["l"]]
+                if len(ds) == 1 and ds[0][0] == "arg":
+                    ai = ds[0][1]
+                    sites_ = F.call_sites(lambda cd, t2: cd == b.id)
+                    return bool(sites_) and all(has_field(cb.atoms(t2["args"][ai - 1]), "HtmlContext", "use_doc_css") for (cb, _bb2, t2) in sites_)
             return False
         cut = edges_where(b, pred)
         ctx.check(unreachable_without_edges(b, bb, cut), "C18-B", key, t["span"], b.id,
